@@ -223,6 +223,31 @@ func (c *evalCtx) call(e *Expr) (tval, error) {
 			return tval{}, err
 		}
 		return tval{t: Eq(cur.t, old.t), ty: tBool}, nil
+	case "frameOld": // frameOld(d1, d2, ...): in the heaps named by the designators, cells of objects that existed at function entry are unchanged
+		if c.old == nil {
+			return tval{}, fmt.Errorf("frameOld needs an old state")
+		}
+		var conj []Term
+		seen := map[string]bool{}
+		for _, a := range e.Args {
+			fps, _, err := fr.evalModifies([]string{a.String()}, c.names, c.cur)
+			if err != nil {
+				return tval{}, err
+			}
+			for _, fp := range fps {
+				if seen[fp.key] {
+					continue
+				}
+				seen[fp.key] = true
+				*c.nq++
+				l := Sym(fmt.Sprintf("l!f%d_%d", u.nsym, *c.nq), SLoc)
+				cur := Select(u.heap(c.cur, fp.key, fp.vs), l, fp.vs)
+				old := Select(u.heap(c.old, fp.key, fp.vs), l, fp.vs)
+				conj = append(conj, Forall([]Term{l}, Implies(Le(Obj(l), c.old.alloc), Eq(cur, old)), []Term{cur}))
+			}
+		}
+		u.usesQuant = true
+		return tval{t: And(conj...), ty: tBool}, nil
 	case "sameheap": // sameheap("KEY"): the whole heap KEY is unchanged since the old state
 		if e.Args[0].Op != "str" {
 			return tval{}, fmt.Errorf("sameheap needs a heap key string")
